@@ -37,9 +37,9 @@ Proof.
 Qed.
 
 (* ---- BaseJob._calc_next_exec ------------------------------------------------------------------------ *)
-Definition timer_ok (tm : timer) : Prop :=
+Definition timer_sane (tm : timer) : Prop :=
   entry_sane (jt_type tm) (jt_timing tm) = true /\ valid_entry (jt_type tm) (jt_timing tm).
-Definition timers_ok (j : job) : Prop := Forall timer_ok (j_timers j).
+Definition timers_sane (j : job) : Prop := Forall timer_sane (j_timers j).
 
 Lemma py_pending_index_map tms : py_pending_index (map py_of_timer tms) = pending_index tms.
 Proof.
@@ -49,7 +49,7 @@ Qed.
 Lemma replace_nth_map p tms tm' :
   replace_nth p (map py_of_timer tms) (py_of_timer tm') = map py_of_timer (replace_nth p tms tm').
 Proof. revert p. induction tms as [|x r IH]; intros [|p]; cbn; try reflexivity. rewrite IH. reflexivity. Qed.
-Lemma nth_timer_ok p tms : Forall timer_ok tms -> timer_ok (nth p tms dummy_timer).
+Lemma nth_timer_sane p tms : Forall timer_sane tms -> timer_sane (nth p tms dummy_timer).
 Proof.
   intros H. destruct (nth_in_or_default p tms dummy_timer) as [Hin| ->].
   - rewrite Forall_forall in H. apply H. exact Hin.
@@ -89,7 +89,7 @@ Proof.
 Qed.
 
 Lemma mapM_skip_tie ref tms :
-  Forall timer_ok tms ->
+  Forall timer_sane tms ->
   mapM (fun timer => bind (GenTimer.jobtimer_datetime timer) (fun p => bind (dt_sub p ref) (fun d =>
           if ts_le d 0 then GenTimer.calc_next_exec timer (Some ref) else Ok timer))) (map py_of_timer tms) =
   match mapM (fun tm => d <- dt_sub (jt_next tm) ref ;; if ts_le d 0 then timer_calc tm (Some ref) else Ok tm) tms with
@@ -107,7 +107,7 @@ Proof.
 Qed.
 
 Theorem tie_job_calc j ref :
-  timers_ok j -> GenJobState.job_calc_next_exec (py_of_job j) ref = py_res_job (job_calc j ref).
+  timers_sane j -> GenJobState.job_calc_next_exec (py_of_job j) ref = py_res_job (job_calc j ref).
 Proof.
   intros Hok. unfold GenJobState.job_calc_next_exec, job_calc.
   change (pj_skip_missing (py_of_job j)) with (c_skip (j_cfg j)).
@@ -121,7 +121,7 @@ Proof.
     apply (gen_tail_eq j l).
   - destruct (c_delay (j_cfg j) || negb (j_attempts j =? 1)).
     + rewrite py_nth_map. unfold pending_timer.
-      destruct (nth_timer_ok (j_pending j) (j_timers j) Hok) as [Hs Hv].
+      destruct (nth_timer_sane (j_pending j) (j_timers j) Hok) as [Hs Hv].
       rewrite (tie_timer_calc _ (Some ref) Hs Hv).
       destruct (timer_calc (nth (j_pending j) (j_timers j) dummy_timer) (Some ref)) as [tm'|e]; cbn [py_res bind]; [|reflexivity].
       rewrite replace_nth_map. apply (gen_tail_eq j (replace_nth (j_pending j) (j_timers j) tm')).
